@@ -12,11 +12,20 @@
 //! `dbg` profile with debug assertions and integer overflow checks, where an overflow or debug-assertion
 //! panic on an in-domain input is a violation (signature prefix `dbg:`).  The engine's own arithmetic is
 //! therefore written to be overflow-free on every enumerated operand (wrapping / saturating where needed).
+//!
+//! A call that does not return is a violation like a panic or a wrong value (`vcore::hang`): every call
+//! into rlib_gcd is announced by its thread (function, type, operands — a few atomic stores), the main
+//! thread observes the enumeration from outside, and a thread found inside the same call for the limit
+//! (20 s; a call takes nanoseconds) ends the enumeration where it stands: that call is reported, with the
+//! usual replay.  Every plain re-execution (`confirm`, `--replay`) runs on a helper thread under the same
+//! limit.  The dbg-profile child does the same for itself, and gets a wall cap from the parent.
 
 use rayon::prelude::*;
 use rlib_num_traits::Integer;
 use std::collections::{BTreeMap, BTreeSet};
 use std::ops::Neg;
+use std::sync::{Arc, Mutex};
+use std::time::{Duration, Instant};
 use vcore::*;
 
 // ---------------------------------------------------------------------------------------------
@@ -100,6 +109,38 @@ ty_unsigned!(u128, 8);
 ty_unsigned!(u16, 9);
 ty_unsigned!(u8, 10);
 ty_unsigned!(usize, 11);
+
+/// `Ty::IDX` -> `Ty::NAME` (checked at start-up).
+const TY_NAMES: [&str; 12] = ["i64", "i32", "i128", "i16", "i8", "isize", "u64", "u32", "u128", "u16", "u8", "usize"];
+const FAM_NAMES: [&str; 4] = ["gcd", "lcm", "egcd", "crt"];
+const FAM_GCD: usize = 0;
+const FAM_LCM: usize = 1;
+const FAM_EGCD: usize = 2;
+const FAM_CRT: usize = 3;
+
+fn ty_names_consistent() -> bool {
+    fn ok<T: Ty>() -> bool {
+        TY_NAMES.get(T::IDX as usize) == Some(&T::NAME)
+    }
+    ok::<i8>() && ok::<i16>() && ok::<i32>() && ok::<i64>() && ok::<i128>() && ok::<isize>() && ok::<u8>() && ok::<u16>() && ok::<u32>() && ok::<u64>() && ok::<u128>() && ok::<usize>()
+}
+
+/// ONE call into rlib_gcd.  The calling thread first publishes which call it is (function, type, operands
+/// as fixed-width words — see `Case::decode`), so that an observer can name the call if it never returns;
+/// a panic of the call comes back as `Err`.
+#[inline]
+fn call<T: Ty, R>(fam: usize, args: &[Z], f: impl FnOnce() -> R) -> Result<R, String> {
+    let mut w = [0u64; 9];
+    let mut signs = 0u64;
+    for (i, z) in args.iter().enumerate() {
+        signs |= (z.0 as u64) << i;
+        w[1 + 2 * i] = z.1 as u64;
+        w[2 + 2 * i] = (z.1 >> 64) as u64;
+    }
+    w[0] = fam as u64 | T::IDX << 8 | (args.len() as u64) << 16 | signs << 24;
+    let _inside = hang::enter(&w[..1 + 2 * args.len()]);
+    catch(f)
+}
 
 macro_rules! dispatch_any {
     ($ty:expr, $f:ident, $($a:expr),*) => {
@@ -302,7 +343,7 @@ fn lin_eq(a: Z, b: Z, c: Z, x: Z, y: Z) -> (bool, String) {
 // comparison of ONE call of the real code with the expected answer
 
 fn cmp_gcd<T: Ty>(a: T, b: T, exp: u128) -> Result<(), String> {
-    match catch(|| rlib_gcd::gcd(a, b)) {
+    match call::<T, _>(FAM_GCD, &[a.split(), b.split()], || rlib_gcd::gcd(a, b)) {
         Err(p) => Err(format!("gcd::<{}>({a}, {b}) panicked ({p}); the greatest common divisor is {exp}", T::NAME)),
         Ok(r) => {
             let (n, m) = r.split();
@@ -316,7 +357,7 @@ fn cmp_gcd<T: Ty>(a: T, b: T, exp: u128) -> Result<(), String> {
 }
 
 fn cmp_lcm<T: Ty>(a: T, b: T, exp: u128) -> Result<(), String> {
-    match catch(|| rlib_gcd::lcm(a, b)) {
+    match call::<T, _>(FAM_LCM, &[a.split(), b.split()], || rlib_gcd::lcm(a, b)) {
         Err(p) => Err(format!("lcm::<{}>({a}, {b}) panicked ({p}); the least common multiple is {exp}", T::NAME)),
         Ok(r) => {
             let (n, m) = r.split();
@@ -331,7 +372,7 @@ fn cmp_lcm<T: Ty>(a: T, b: T, exp: u128) -> Result<(), String> {
 
 fn cmp_egcd<T: Ty>(a: T, b: T, c: T, g: u128) -> Result<(), String> {
     let solvable = c.split().1 % g == 0;
-    match catch(|| rlib_gcd::egcd(a, b, c)) {
+    match call::<T, _>(FAM_EGCD, &[a.split(), b.split(), c.split()], || rlib_gcd::egcd(a, b, c)) {
         Err(p) => Err(format!(
             "egcd::<{}>({a}, {b}, {c}) panicked ({p}); gcd = {g} {} c",
             T::NAME,
@@ -365,7 +406,7 @@ fn cmp_crt<T: Ty + Neg<Output = T>>(a1: T, m1: T, a2: T, m2: T, g: u128, l: u128
     let diff = if r1 > r2 { r1 - r2 } else { r2 - r1 };
     let compat = diff % g == 0;
     let head = format!("crt::<{}>(a1={a1}, m1={m1}, a2={a2}, m2={m2})", T::NAME);
-    match catch(|| rlib_gcd::crt(a1, m1, a2, m2)) {
+    match call::<T, _>(FAM_CRT, &[a1.split(), m1.split(), a2.split(), m2.split()], || rlib_gcd::crt(a1, m1, a2, m2)) {
         Err(p) => Err(format!("{head} panicked ({p}); the congruences are {} (gcd of the moduli {g})", if compat { "compatible" } else { "incompatible" })),
         Ok(None) => {
             if compat {
@@ -494,11 +535,14 @@ impl Stats {
                 return;
             }
         }
-        let strs: Vec<String> = args.iter().map(|&z| zs(z)).collect();
-        let sig = format!("{fam}:{ty}({})", strs.join(","));
-        let v = Violation::new(sig, summary, json!({"fn": fam, "ty": ty, "args": strs}));
-        self.fails.insert(fam, Fail { key, v });
+        self.fails.insert(fam, Fail { key, v: violation_of(fam, ty, args, summary) });
     }
+}
+
+/// Signature `<function>:<type>(<operands>)` and the replay of one failing call.
+fn violation_of(fam: &str, ty: &str, args: &[Z], summary: String) -> Violation {
+    let strs: Vec<String> = args.iter().map(|&z| zs(z)).collect();
+    Violation::new(format!("{fam}:{ty}({})", strs.join(",")), summary, json!({"fn": fam, "ty": ty, "args": strs}))
 }
 
 fn nontrivial_pair(x: u128, y: u128) -> bool {
@@ -979,30 +1023,108 @@ fn mk<T: Ty>(z: Z) -> T {
     }
 }
 
-fn confirm(v: &Value) -> Result<(), String> {
-    let f = v["fn"].as_str().unwrap_or_else(|| bad_replay("no \"fn\""));
-    let ty = v["ty"].as_str().unwrap_or_else(|| bad_replay("no \"ty\""));
-    let args: Vec<Z> = v["args"]
-        .as_array()
-        .unwrap_or_else(|| bad_replay("no \"args\""))
-        .iter()
-        .map(|s| s.as_str().and_then(zparse).unwrap_or_else(|| bad_replay("operand is not a decimal string")))
-        .collect();
-    let want = match f {
-        "gcd" | "lcm" => 2,
-        "egcd" => 3,
-        "crt" => 4,
-        other => bad_replay(&format!("unknown function {other}")),
-    };
-    if args.len() != want {
-        bad_replay("wrong number of operands");
+/// One call of the enumeration, as data: what a replay file records and what a thread publishes on entry.
+#[derive(Clone)]
+struct Case {
+    fam: usize,
+    ty: usize,
+    args: Vec<Z>,
+}
+
+impl Case {
+    /// The words published by `call`.
+    fn decode(w: &[u64]) -> Option<Case> {
+        let h = *w.first()?;
+        let (fam, ty, n, signs) = ((h & 0xff) as usize, (h >> 8 & 0xff) as usize, (h >> 16 & 0xff) as usize, h >> 24);
+        if fam >= FAM_NAMES.len() || ty >= TY_NAMES.len() || w.len() != 1 + 2 * n {
+            return None;
+        }
+        let args = (0..n).map(|i| (signs >> i & 1 == 1, w[1 + 2 * i] as u128 | (w[2 + 2 * i] as u128) << 64)).collect();
+        Some(Case { fam, ty, args })
     }
-    let a = &args[..];
-    match f {
-        "gcd" => dispatch_any!(ty, one_gcd, a),
-        "lcm" => dispatch_any!(ty, one_lcm, a),
-        "egcd" => dispatch_signed!(ty, one_egcd, a),
-        _ => dispatch_signed!(ty, one_crt, a),
+
+    fn parse(v: &Value) -> Case {
+        let f = v["fn"].as_str().unwrap_or_else(|| bad_replay("no \"fn\""));
+        let ty = v["ty"].as_str().unwrap_or_else(|| bad_replay("no \"ty\""));
+        let args: Vec<Z> = v["args"]
+            .as_array()
+            .unwrap_or_else(|| bad_replay("no \"args\""))
+            .iter()
+            .map(|s| s.as_str().and_then(zparse).unwrap_or_else(|| bad_replay("operand is not a decimal string")))
+            .collect();
+        let fam = FAM_NAMES.iter().position(|n| *n == f).unwrap_or_else(|| bad_replay(&format!("unknown function {f}")));
+        let ty = TY_NAMES.iter().position(|n| *n == ty).unwrap_or_else(|| bad_replay(&format!("unknown integer type {ty}")));
+        if args.len() != [2, 2, 3, 4][fam] {
+            bad_replay("wrong number of operands");
+        }
+        Case { fam, ty, args }
+    }
+
+    /// `gcd::<u128>(9, 15)`
+    fn text(&self) -> String {
+        let a: Vec<String> = self.args.iter().map(|&z| zs(z)).collect();
+        let inner = if self.fam == FAM_CRT && a.len() == 4 { format!("a1={}, m1={}, a2={}, m2={}", a[0], a[1], a[2], a[3]) } else { a.join(", ") };
+        format!("{}::<{}>({inner})", FAM_NAMES[self.fam], TY_NAMES[self.ty])
+    }
+
+    /// The order in which failing cases are preferred (as in `Stats::fail`, the operands breaking ties).
+    fn key(&self) -> (u128, u128, usize, Vec<Z>) {
+        (self.args.iter().map(|z| z.1).max().unwrap_or(0), self.args.iter().fold(0u128, |a, z| a.saturating_add(z.1)), self.ty, self.args.clone())
+    }
+
+    /// The summary for a call that was observed not to return.
+    fn never_returned(&self) -> String {
+        let m = |i: usize| self.args.get(i).map_or(0, |z| z.1);
+        let expected = match self.fam {
+            FAM_GCD => format!("the greatest common divisor is {}", ref_gcd(m(0), m(1))),
+            FAM_LCM => ref_lcm(m(0), m(1)).map_or(String::new(), |l| format!("the least common multiple is {l}")),
+            FAM_EGCD => match ref_gcd(m(0), m(1)) {
+                0 => String::new(),
+                g => format!("gcd(a,b) = {g} {} c", if m(2) % g == 0 { "divides" } else { "does not divide" }),
+            },
+            _ => format!("the gcd of the moduli is {}", ref_gcd(m(1), m(3))),
+        };
+        let sep = if expected.is_empty() { "" } else { "; " };
+        format!("{} does not return within {}: the call does not terminate{sep}{expected}", self.text(), hang::limit_text())
+    }
+
+    fn violation(&self, summary: String) -> Violation {
+        violation_of(FAM_NAMES[self.fam], TY_NAMES[self.ty], &self.args, summary)
+    }
+
+    /// Plain re-execution on the calling thread.
+    fn execute(&self) -> Result<(), String> {
+        let (ty, a) = (TY_NAMES[self.ty], &self.args[..]);
+        match self.fam {
+            FAM_GCD => dispatch_any!(ty, one_gcd, a),
+            FAM_LCM => dispatch_any!(ty, one_lcm, a),
+            FAM_EGCD => dispatch_signed!(ty, one_egcd, a),
+            _ => dispatch_signed!(ty, one_crt, a),
+        }
+    }
+}
+
+fn stuck_cases(stuck: &[hang::Stuck]) -> Vec<Case> {
+    stuck
+        .iter()
+        .map(|s| Case::decode(&s.words).unwrap_or_else(|| engine_failure(&format!("a thread is stuck in a call whose published description is unreadable: {:?}", s.words))))
+        .collect()
+}
+
+fn engine_failure(msg: &str) -> ! {
+    println!("MACHINERY-FAILURE engine=gcd {msg}");
+    eprintln!("MACHINERY-FAILURE engine=gcd {msg}");
+    std::process::exit(2)
+}
+
+/// One recorded case, re-executed on a helper thread under the limit of `vcore::hang`: a call that does not
+/// return is reported as such (the thread is left behind), whichever way the case failed when it was found.
+fn confirm(v: &Value) -> Result<(), String> {
+    let case = Case::parse(v);
+    match hang::limited(move || case.execute()) {
+        hang::Ended::Returned(r) => r,
+        hang::Ended::Stuck(s) => Err(stuck_cases(&s)[0].never_returned()),
+        hang::Ended::Panicked(m) => engine_failure(&format!("the re-execution panicked outside the call into the library: {m}")),
     }
 }
 
@@ -1065,10 +1187,88 @@ fn reference_self_check(tabs: &Tables, run: &Run) {
     }
 }
 
-fn timing(label: &str, run: &Run) {
+fn timing(label: &str, start: Instant) {
     if std::env::var("VERIF_TIMING").is_ok() {
-        eprintln!("[{:8.2}s] {label}", run.elapsed());
+        eprintln!("[{:8.2}s] {label}", start.elapsed().as_secs_f64());
     }
+}
+
+const BOX: usize = 300;
+
+/// What the enumeration hands back besides the totals (which it merges, family by family, into the shared
+/// `Stats`, so that they survive an enumeration that never ends).
+struct Enumerated {
+    gcd_lcm_evaluations: (u64, u64),
+    samples: Vec<Value>,
+}
+
+/// Every call into rlib_gcd of one pass.  Runs on the thread that `hang::supervise` starts.
+fn enumerate(tier: Tier, seed: u64, tabs: Tables, shared: Arc<Mutex<Stats>>, start: Instant) -> Enumerated {
+    let thorough = tier == Tier::Thorough;
+    let cube: u128 = tier.pick(40, 80);
+    let mmax: u128 = tier.pick(64, 128);
+    let add = |s: Stats| {
+        let mut tot = shared.lock().unwrap_or_else(|e| e.into_inner());
+        *tot = std::mem::replace(&mut *tot, Stats::new()).merge(s);
+    };
+    macro_rules! each {
+        ($f:ident $args:tt ; $($t:ty),*) => { $( add($f::<$t> $args); )* };
+    }
+
+    // gcd / lcm
+    each!(gcd_lcm_box(&tabs); i8, u8, i16, u16, i32, u32, i64, u64, i128, u128, isize, usize);
+    timing("gcd/lcm boxes", start);
+    each!(gcd_lcm_boundary(BOX as u128); i16, u16, i32, u32, i64, u64, i128, u128, isize, usize);
+    timing("gcd/lcm boundary pairs", start);
+    if thorough {
+        each!(gcd_lcm_full16(); u16, i16);
+        timing("gcd/lcm all 16-bit pairs", start);
+    }
+    let gcd_lcm_evaluations = {
+        let tot = shared.lock().unwrap_or_else(|e| e.into_inner());
+        (tot.c[GCD_EV], tot.c[LCM_EV])
+    };
+
+    // egcd
+    each!(egcd_cube(&tabs, cube); i64, i32, i128);
+    timing("egcd cube", start);
+    each!(egcd_boundary(cube); i64, i32);
+    timing("egcd boundary triples", start);
+
+    // crt
+    add(crt_small(&tabs, mmax));
+    timing("crt small moduli", start);
+    each!(crt_boundary(mmax); i64, i128, i32);
+    timing("crt boundary moduli", start);
+
+    // samples (VERIF_SEED only rotates which cases are written out)
+    let mut samples = vec![];
+    let z = |v: i64| -> Z { (v < 0, v.unsigned_abs() as u128) };
+    let vals = box_vals::<i64>(BOX as u128);
+    let n = vals.len() as u64;
+    let pick = |k: u64| vals[((seed.wrapping_mul(7919).wrapping_add(k.wrapping_mul(104_729)).wrapping_add(12_345)) % n) as usize];
+    let (a, b) = (pick(1), pick(2));
+    let (am, bm) = (a.split().1, b.split().1);
+    samples.push(json!({"call": format!("gcd::<i64>({a}, {b})"), "expected": tabs.g(am, bm) as u64, "observed": format!("{:?}", call::<i64, _>(FAM_GCD, &[z(a), z(b)], || rlib_gcd::gcd(a, b)))}));
+    if (a, b) != (0, 0) {
+        samples.push(json!({"call": format!("lcm::<i64>({a}, {b})"), "expected": tabs.l(am, bm) as u64, "observed": format!("{:?}", call::<i64, _>(FAM_LCM, &[z(a), z(b)], || rlib_gcd::lcm(a, b)))}));
+    }
+    let (a8, b8) = ((pick(3) % 128) as i8, (pick(4) % 128) as i8);
+    samples.push(json!({"call": format!("gcd::<i8>({a8}, {b8})"), "expected": tabs.g(a8.unsigned_abs() as u128, b8.unsigned_abs() as u128) as u64, "observed": format!("{:?}", call::<i8, _>(FAM_GCD, &[a8.split(), b8.split()], || rlib_gcd::gcd(a8, b8)))}));
+    let (ea, eb, ec) = (pick(5) % 41, pick(6) % 41 + 41, pick(7) % 41);
+    let g = tabs.g(ea.unsigned_abs() as u128, eb.unsigned_abs() as u128) as i64;
+    samples.push(json!({"call": format!("egcd::<i64>({ea}, {eb}, {ec})"), "expected": if ec % g == 0 { format!("Some((x, y)) with a*x+b*y = {ec} (gcd {g})") } else { format!("None (gcd {g} does not divide c)") }, "observed": format!("{:?}", call::<i64, _>(FAM_EGCD, &[z(ea), z(eb), z(ec)], || rlib_gcd::egcd(ea, eb, ec)))}));
+    let (m1, m2) = (pick(8).abs() % 63 + 2, pick(9).abs() % 63 + 2);
+    let (a1, a2) = (pick(10).abs() % m1, pick(11).abs() % m2);
+    let exp = (0..m1 * m2).find(|x| x % m1 == a1 && x % m2 == a2);
+    samples.push(json!({"call": format!("crt::<i64>(a1={a1}, m1={m1}, a2={a2}, m2={m2})"), "expected": format!("{exp:?}"), "observed": format!("{:?}", call::<i64, _>(FAM_CRT, &[z(a1), z(m1), z(a2), z(m2)], || rlib_gcd::crt(a1, m1, a2, m2)))}));
+    let (bm1, bm2) = (983_055i64, 917_518i64); // share the factor 65537
+    let t = bm1 / 65_537 * bm2 - 1;
+    let (b1, b2) = (t % bm1, t % bm2);
+    samples.push(json!({"call": format!("crt::<i64>(a1={b1}, m1={bm1}, a2={b2}, m2={bm2})"), "expected": format!("Some({t}) = lcm - 1"), "observed": format!("{:?}", call::<i64, _>(FAM_CRT, &[z(b1), z(bm1), z(b2), z(bm2)], || rlib_gcd::crt(b1, bm1, b2, bm2)))}));
+    let (f92, f91) = (fib(92) as i64, -(fib(91) as i64));
+    samples.push(json!({"call": "gcd::<i64>(F92, -F91) (consecutive Fibonacci numbers)", "expected": 1, "observed": format!("{:?}", call::<i64, _>(FAM_GCD, &[z(f92), z(f91)], || rlib_gcd::gcd(f92, f91)))}));
+    Enumerated { gcd_lcm_evaluations, samples }
 }
 
 fn main() {
@@ -1078,42 +1278,31 @@ fn main() {
         Run::replay_main(&args, &confirm);
     }
     let mut run = Run::new(&args, "gcd", "exploration");
+    if !ty_names_consistent() {
+        run.machinery_failure("the table of type names does not match the type indices");
+    }
     let thorough = args.tier == Tier::Thorough;
-    const BOX: usize = 300;
     let cube: u128 = args.tier.pick(40, 80);
     let mmax: u128 = args.tier.pick(64, 128);
+    let start = Instant::now();
 
     let tabs = Tables::build(BOX);
     reference_self_check(&tabs, &run);
-    timing("reference tables", &run);
+    timing("reference tables", start);
 
-    let mut tot = Stats::new();
-    macro_rules! each {
-        ($f:ident $args:tt ; $($t:ty),*) => { $( tot = tot.merge($f::<$t> $args); )* };
-    }
-
-    // gcd / lcm
-    each!(gcd_lcm_box(&tabs); i8, u8, i16, u16, i32, u32, i64, u64, i128, u128, isize, usize);
-    timing("gcd/lcm boxes", &run);
-    each!(gcd_lcm_boundary(BOX as u128); i16, u16, i32, u32, i64, u64, i128, u128, isize, usize);
-    timing("gcd/lcm boundary pairs", &run);
-    if thorough {
-        each!(gcd_lcm_full16(); u16, i16);
-        timing("gcd/lcm all 16-bit pairs", &run);
-    }
-    let gl_done = (tot.c[GCD_EV], tot.c[LCM_EV]);
-
-    // egcd
-    each!(egcd_cube(&tabs, cube); i64, i32, i128);
-    timing("egcd cube", &run);
-    each!(egcd_boundary(cube); i64, i32);
-    timing("egcd boundary triples", &run);
-
-    // crt
-    tot = tot.merge(crt_small(&tabs, mmax));
-    timing("crt small moduli", &run);
-    each!(crt_boundary(mmax); i64, i128, i32);
-    timing("crt boundary moduli", &run);
+    // the enumeration, observed from here: it ends by returning or by a call that does not
+    let shared = Arc::new(Mutex::new(Stats::new()));
+    let ended = {
+        let (tier, seed, shared) = (args.tier, args.seed, shared.clone());
+        hang::supervise(move || enumerate(tier, seed, tabs, shared, start))
+    };
+    let mut tot = std::mem::replace(&mut *shared.lock().unwrap_or_else(|e| e.into_inner()), Stats::new());
+    let (done, mut stuck) = match ended {
+        hang::Ended::Returned(e) => (Some(e), vec![]),
+        hang::Ended::Stuck(s) => (None, stuck_cases(&s)),
+        hang::Ended::Panicked(m) => run.machinery_failure(&format!("the enumeration panicked outside the calls into the library: {m}")),
+    };
+    stuck.sort_by_key(|c| c.key());
 
     // ---- evidence
     let evaluations = tot.c[GCD_EV] + tot.c[LCM_EV] + tot.c[EGCD_EV] + tot.c[CRT_EV];
@@ -1127,7 +1316,7 @@ fn main() {
         }
     }
     run.cov("distinct_gcd_values_expected", tot.gcd_seen.len() as u64);
-    run.cov("exhaustive", true);
+    run.cov("exhaustive", done.is_some());
     run.cov(
         "bounds",
         json!({
@@ -1142,39 +1331,42 @@ fn main() {
     );
     run.cov(
         "rule",
-        "every (type, function, operands) tuple of the stated boxes and boundary sets is executed once on the real code in each of two builds (release profile; and the dbg profile with debug assertions and integer overflow checks, where a panic on an in-domain tuple is a violation — out-of-domain tuples are skipped before the call in both), operands ordered 0,1,-1,2,-2,…; expected gcd/lcm come from tables built by the definitions (downward search for the largest common divisor, upward search for the smallest common multiple), CRT from the table x -> (x mod m1, x mod m2) over [0,lcm), boundary cases from a binary gcd plus direct verification (a*x+b*y==c exactly; 0<=x<lcm, x≡a1, x≡a2). A case is non-trivial when both principal operands ((a,b) resp. (m1,m2)) are non-zero and neither divides the other (the Euclidean recursion runs at least two remainder steps); distinct_nontrivial counts such executed tuples, which are distinct by construction (boundary enumerations omit what the boxes cover)",
+        format!(
+            "every (type, function, operands) tuple of the stated boxes and boundary sets is executed once on the real code in each of two builds (release profile; and the dbg profile with debug assertions and integer overflow checks, where a panic on an in-domain tuple is a violation — out-of-domain tuples are skipped before the call in both), operands ordered 0,1,-1,2,-2,…; expected gcd/lcm come from tables built by the definitions (downward search for the largest common divisor, upward search for the smallest common multiple), CRT from the table x -> (x mod m1, x mod m2) over [0,lcm), boundary cases from a binary gcd plus direct verification (a*x+b*y==c exactly; 0<=x<lcm, x≡a1, x≡a2). A call must also RETURN: every thread publishes the call it is about to make and is observed from outside; a thread found inside the same call for {} ends the enumeration where it stands with that call as the violation (the counts then cover the families completed before, exhaustive is false), and every re-execution of a recorded case runs under the same limit. A case is non-trivial when both principal operands ((a,b) resp. (m1,m2)) are non-zero and neither divides the other (the Euclidean recursion runs at least two remainder steps); distinct_nontrivial counts such executed tuples, which are distinct by construction (boundary enumerations omit what the boxes cover)",
+            hang::limit_text()
+        ),
     );
-    let lcm00 = match catch(|| rlib_gcd::lcm(0i64, 0i64)) {
-        Ok(v) => format!("returns {v}"),
-        Err(p) => format!("panics ({p})"),
+    let zero = [(false, 0u128); 2];
+    let lcm00 = match hang::limited(move || call::<i64, _>(FAM_LCM, &zero, || rlib_gcd::lcm(0i64, 0i64))) {
+        hang::Ended::Returned(Ok(v)) => format!("returns {v}"),
+        hang::Ended::Returned(Err(p)) => format!("panics ({p})"),
+        hang::Ended::Stuck(_) => format!("does not return within {}", hang::limit_text()),
+        hang::Ended::Panicked(m) => run.machinery_failure(&format!("the observation of lcm(0,0) failed: {m}")),
     };
     run.cov("lcm_zero_zero_observed", format!("lcm(0,0) is treated as out of domain (skipped, counted); the real code {lcm00}"));
     run.assume("lcm(0,0) and egcd(0,0,c) are outside the property's domain; signed minimum values are excluded as the property says");
     run.assume("'intermediate values fit the type' is taken as 4*|c|*max(|a|,|b|) <= T::MAX for egcd and 4*max(m1,m2)^2 <= T::MAX for crt (true for every enumerated case unless counted under skipped_intermediates_may_not_fit_type), and 'the lcm itself fits' for lcm");
     run.assume("two builds are judged: the release profile of the workspace (overflow checks and debug assertions off, like a release build of rlib) and, as a second pass over the same enumeration, the dbg profile (same optimisation, debug assertions and integer overflow checks on, like `cargo test`): there an overflow or debug-assertion panic on an in-domain input is a violation (signature prefix dbg:)");
+    run.assume(&format!(
+        "'returns the answer' includes returning at all: a call of a few dozen arithmetic steps that is still running after {} on a thread that the observer sees making no progress does not terminate (observations are counted, not a clock read, so a stopped or starved process is not mistaken for one)",
+        hang::limit_text()
+    ));
+    run.cov("calls_returned", hang::calls_returned());
 
-    // ---- samples (VERIF_SEED only rotates which cases are written out)
-    {
-        let vals = box_vals::<i64>(BOX as u128);
-        let n = vals.len() as u64;
-        let pick = |k: u64| vals[((args.seed.wrapping_mul(7919).wrapping_add(k.wrapping_mul(104_729)).wrapping_add(12_345)) % n) as usize];
-        let (a, b) = (pick(1), pick(2));
-        let (am, bm) = (a.split().1, b.split().1);
-        run.sample(json!({"call": format!("gcd::<i64>({a}, {b})"), "expected": tabs.g(am, bm) as u64, "observed": format!("{:?}", catch(|| rlib_gcd::gcd(a, b)))}));
-        run.sample(json!({"call": format!("lcm::<i64>({a}, {b})"), "expected": tabs.l(am, bm) as u64, "observed": format!("{:?}", catch(|| rlib_gcd::lcm(a, b)))}));
-        let (a8, b8) = ((pick(3) % 128) as i8, (pick(4) % 128) as i8);
-        run.sample(json!({"call": format!("gcd::<i8>({a8}, {b8})"), "expected": tabs.g(a8.unsigned_abs() as u128, b8.unsigned_abs() as u128) as u64, "observed": format!("{:?}", catch(|| rlib_gcd::gcd(a8, b8)))}));
-        let (ea, eb, ec) = (pick(5) % 41, pick(6) % 41 + 41, pick(7) % 41);
-        let g = tabs.g(ea.unsigned_abs() as u128, eb.unsigned_abs() as u128) as i64;
-        run.sample(json!({"call": format!("egcd::<i64>({ea}, {eb}, {ec})"), "expected": if ec % g == 0 { format!("Some((x, y)) with a*x+b*y = {ec} (gcd {g})") } else { format!("None (gcd {g} does not divide c)") }, "observed": format!("{:?}", catch(|| rlib_gcd::egcd(ea, eb, ec)))}));
-        let (m1, m2) = (pick(8).abs() % 63 + 2, pick(9).abs() % 63 + 2);
-        let (a1, a2) = (pick(10).abs() % m1, pick(11).abs() % m2);
-        let exp = (0..m1 * m2).find(|x| x % m1 == a1 && x % m2 == a2);
-        run.sample(json!({"call": format!("crt::<i64>(a1={a1}, m1={m1}, a2={a2}, m2={m2})"), "expected": format!("{exp:?}"), "observed": format!("{:?}", catch(|| rlib_gcd::crt(a1, m1, a2, m2)))}));
-        let (bm1, bm2) = (983_055i64, 917_518i64); // share the factor 65537
-        let t = bm1 / 65_537 * bm2 - 1;
-        run.sample(json!({"call": format!("crt::<i64>(a1={}, m1={bm1}, a2={}, m2={bm2})", t % bm1, t % bm2), "expected": format!("Some({t}) = lcm - 1"), "observed": format!("{:?}", catch(|| rlib_gcd::crt(t % bm1, bm1, t % bm2, bm2)))}));
-        run.sample(json!({"call": "gcd::<i64>(F92, -F91) (consecutive Fibonacci numbers)", "expected": 1, "observed": format!("{:?}", catch(|| rlib_gcd::gcd(fib(92) as i64, -(fib(91) as i64))))}));
+    for (_, f) in std::mem::take(&mut tot.fails) {
+        run.violation(f.v);
+    }
+    let Some(done) = done else {
+        // a call did not return: the pass is abandoned where it stood, its threads are left behind
+        let first = &stuck[0];
+        run.cov("ended_by", format!("a call into the library that did not return ({}); the enumeration was abandoned where it stood, the counters cover the families completed before, the second pass was not run", first.text()));
+        run.cov("calls_found_stuck", stuck.len() as u64);
+        run.sample(json!({"call": first.text(), "observed": format!("does not return within {}", hang::limit_text())}));
+        run.violation(first.violation(first.never_returned()));
+        run.finish(&confirm)
+    };
+    for s in done.samples {
+        run.sample(s);
     }
 
     // ---- non-vacuity
@@ -1182,6 +1374,7 @@ fn main() {
         run.machinery_failure(&format!("the CRT reference tables are inconsistent in {} places", tot.c[REF_ERR]));
     }
     let c = &tot.c;
+    let gl_done = done.gcd_lcm_evaluations;
     let i8_pairs = 255u64 * 255;
     let checks: &[(&str, bool)] = &[
         ("gcd ran on every pair of i8 and u8", gl_done.0 >= i8_pairs + 65_536),
@@ -1195,6 +1388,7 @@ fn main() {
         ("crt had compatible, incompatible, non-coprime-compatible, nested and lcm-1 cases", c[CRT_SOME] > 10_000 && c[CRT_NONE] > 10_000 && c[CRT_NONCOP] > 10_000 && c[CRT_NESTED] > 1_000 && c[CRT_LAST] > 1_000),
         ("crt boundary moduli were exercised", c[CRT_BIG] > 10_000),
         ("non-trivial cases dominate", c[NONTRIV] > evaluations / 4),
+        ("every compared call was announced to the observer and returned", hang::calls_returned() >= evaluations),
     ];
     for (what, ok) in checks {
         if !ok {
@@ -1202,13 +1396,11 @@ fn main() {
         }
     }
 
-    for (_, f) in std::mem::take(&mut tot.fails) {
-        run.violation(f.v);
-    }
     if std::env::var("VCORE_CHILD").is_err() {
         // the same enumeration in a build with debug assertions and integer overflow checks: every skipped
-        // case is skipped BEFORE the call there too, so a panic of the real code is a panic on an in-domain input
-        run.run_dbg_child();
+        // case is skipped BEFORE the call there too, so a panic of the real code is a panic on an in-domain input.
+        // The child observes its own calls; the cap is for a child that hangs in some other way.
+        run.run_dbg_child_within(Duration::from_secs(args.tier.pick(300, 3600)));
     }
     run.finish(&confirm)
 }
